@@ -6,7 +6,7 @@ import os
 import subprocess
 import time
 
-from common import (SCRATCH, bin_path, PY_EXE, PY_MAGIC, PY_VER, HarnessError, Pool, Report, alpha_rename, build,
+from common import (SCRATCH, MOUNT_BASE, bin_path, PY_EXE, PY_MAGIC, PY_VER, HarnessError, Pool, Report, alpha_rename, build,
                     ddmin, load_known, log, norm_text, run_json, sha, write_evidence, write_replay)
 from genproj import gen_project, write_project
 from rng import SplitMix
@@ -29,7 +29,7 @@ COMPONENTS_STUBBED = [
 ]
 
 
-MOUNT_AT = os.path.join(SCRATCH, "mnt")
+MOUNT_AT = os.path.join(MOUNT_BASE, "mnt")
 
 
 def harness_args(dir_, pin, extra):
@@ -260,8 +260,8 @@ def c20_judge(proj, runs):
 
 TIERS = {
     # projects, schedules per project
-    "C19": {"quick": (220, 6), "thorough": (1500, 24)},
-    "C20": {"quick": (260, 5), "thorough": (1800, 20)},
+    "C19": {"quick": (220, 6), "thorough": (700, 12)},
+    "C20": {"quick": (260, 5), "thorough": (700, 10)},
 }
 
 GEN_OPTS = {
